@@ -16,9 +16,9 @@ import (
 // Versions are the document bodies of the alphabet; version 0 means "absent".
 var Versions = []map[string]interface{}{
 	nil,
-	{"t": "x"},
+	{"t": "x", "a": []string{"p"}},
 	{"t": "y", "n": 2.0},
-	{"t": "x y", "u": "z"},
+	{"t": "x y", "u": "z", "a": []string{"p", "q", "r"}},
 }
 
 // body is the struct form of a version: bleve walks map documents in Go's random map order, which
@@ -28,6 +28,7 @@ type body struct {
 	T *string  `json:"t,omitempty"`
 	N *float64 `json:"n,omitempty"`
 	U *string  `json:"u,omitempty"`
+	A []string `json:"a,omitempty"` // array-valued stored field: v3 -> v1 shrinks it, v3 -> v2 drops it
 }
 
 // Body returns the document to index for version v (deterministic field order).
@@ -42,6 +43,9 @@ func Body(v int) interface{} {
 	}
 	if s, ok := m["u"].(string); ok {
 		b.U = &s
+	}
+	if a, ok := m["a"].([]string); ok {
+		b.A = a
 	}
 	return b
 }
@@ -167,7 +171,11 @@ func renderDoc(d index.Document) string {
 			v, _ := ff.Number()
 			fs = append(fs, fmt.Sprintf("%s:num=%v", f.Name(), v))
 		case *document.TextField:
-			fs = append(fs, fmt.Sprintf("%s:text=%s", f.Name(), string(f.Value())))
+			if ap := f.ArrayPositions(); len(ap) > 0 {
+				fs = append(fs, fmt.Sprintf("%s%v:text=%s", f.Name(), ap, string(f.Value())))
+			} else {
+				fs = append(fs, fmt.Sprintf("%s:text=%s", f.Name(), string(f.Value())))
+			}
 		default:
 			fs = append(fs, fmt.Sprintf("%s:%T=%x", f.Name(), f, f.Value()))
 		}
@@ -187,6 +195,10 @@ func renderVersion(v int) string {
 			fs = append(fs, fmt.Sprintf("%s:text=%s", k, x))
 		case float64:
 			fs = append(fs, fmt.Sprintf("%s:num=%v", k, x))
+		case []string:
+			for i, e := range x {
+				fs = append(fs, fmt.Sprintf("%s[%d]:text=%s", k, i, e))
+			}
 		}
 	}
 	sort.Strings(fs)
